@@ -35,6 +35,7 @@ func runC18(c *Ctx) {
 	// page held before (another request's data), and the reply differs from the one made without the allocator
 	c.withOnly("R3", "R11", func() { runC01Server(c) })
 	checkNoPageRetained(c, "R10")
+	checkAllocatorLeavesPagesAlone(c, "R12")
 
 	// ---------- R2 READ data page tagged with the request's order id ----------
 	{
